@@ -1520,6 +1520,18 @@ pub fn generate_a(seed: u64, quick: bool, faults: bool) -> Value {
         if fault_at.remove(&emitted) {
             g.fault_transaction();
             emitted += 1;
+            // state held only inside closures is invisible to the frame comparison: sweep it
+            if g.rng.chance(2, 3) {
+                for name in g.names_with(Role::Cell) {
+                    g.emit(list(vec![call("car", vec![sym(&name)])]), "sweep-cell", vec![name], false);
+                }
+                for name in g.names_with(Role::Counter).into_iter().chain(g.names_with(Role::Adder)) {
+                    g.emit(list(vec![sym(&name)]), "sweep-counter", vec![name], true);
+                }
+                for name in g.names_with(Role::Acc) {
+                    g.emit(call(&name, vec![int(0)]), "sweep-acc", vec![name], true);
+                }
+            }
             continue;
         }
         let w = g.weights.clone();
